@@ -294,4 +294,14 @@ def snapshot(schema):
         if isinstance(t, EnumType):
             extra["%s:values" % name] = [(v.name, repr(v.value)) for v in t.values]
     d["extra"] = extra
+    # state that only the frame condition "the source is left as it was" looks at: the source nodes attached to every element
+    frame = {}
+    for name, t in schema.types.items():
+        if not name.startswith("__") and name not in SPECIFIED:
+            frame[name] = [type(n).__name__ for n in (getattr(t, "nodes", None) or []) if n is not None]
+    frame["<schema>"] = [type(n).__name__ for n in (getattr(schema, "nodes", None) or []) if n is not None]
+    for n_, dd in schema.directives.items():
+        frame["@" + n_] = type(getattr(dd, "node", None)).__name__
+    d["frame"] = frame
+    d["default_resolver"] = id(schema.default_resolver) if getattr(schema, "default_resolver", None) else None
     return d
